@@ -61,7 +61,9 @@ DIMENSIONS = {
     'legacy_constraints': [False, True],       # `id int pk unique` instead of settings
     'null_word': [False, True],                # write an explicit `null` for a nullable column
     'note_pad': ['tight', 'padded'],           # multi-line text: blank lines around, extra indentation
-    'space': [' ', '  ', '\t'],                # separator between tokens on a line
+    'space': [' ', '  ', '\t'],
+    'comment_style': ['line', 'block'],
+    'comment_place': ['above', 'trailing'],                # separator between tokens on a line
 }
 
 
@@ -157,6 +159,37 @@ class Printer:
             return '[' + self.eol + (',' + self.eol).join(pad + i for i in items) + self.eol + self.ind * depth + ']'
         return '[ ' + (' ,' + self.eol + pad).join(items) + ' ]'
 
+    # ---- comments (C14) ---------------------------------------------------------------
+    def comment_above(self, text: str, depth: int) -> List[str]:
+        text = dec(text)
+        pad = self.ind * depth
+        parts = text.split('\n')
+        if self.f.pick('comment_style') == 'line' or '*/' in text:
+            return [pad + '// ' + ln for ln in parts]
+        if len(parts) == 1:
+            return [pad + '/* ' + text + ' */']
+        # \x02 marks the continuation lines of a block comment (no comment may be inserted before them)
+        return [pad + '/* ' + parts[0]] + ['\x02' + pad + '   ' + ln for ln in parts[1:-1]] + ['\x02' + pad + '   ' + parts[-1] + ' */']
+
+    def comment_trailing(self, text: str) -> str:
+        text = dec(text)
+        if self.f.pick('comment_style') == 'line' or '*/' in text:
+            return ' // ' + text
+        return ' /* ' + text + ' */'
+
+    def attach(self, lines: List[str], comment: str, depth: int, can_trail: bool, can_above: bool = True,
+               trail_line: int = -1) -> List[str]:
+        """write the comment an element is declared with: directly above it, or trailing its line"""
+        if not comment:
+            return lines
+        one = '\n' not in dec(comment)
+        if can_trail and one and (not can_above or self.f.pick('comment_place') == 'trailing'):
+            lines = list(lines)
+            lines[trail_line] += self.comment_trailing(comment) + '\x01'      # \x01: line already ends in a comment
+            return lines
+        assert can_above, 'comment %r cannot be written' % comment
+        return self.comment_above(comment, depth) + lines
+
     def note_setting(self, text: str) -> str:
         return self.kw('Note') + ':' + self.sp() + self.string(text, pad=True)
 
@@ -242,7 +275,7 @@ class Printer:
         st = self.settings(items, depth)
         if st:
             line += ' ' + st
-        return [line]
+        return self.attach([line], c.get('comment', ''), depth, can_trail=True, can_above=False)
 
     def index(self, x: Dict[str, Any], depth: int) -> List[str]:
         pad = self.ind * depth
@@ -263,7 +296,7 @@ class Printer:
         if x['note']:
             items.append(self.note_setting(x['note']))
         st = self.settings(items, depth)
-        return [pad + head + (' ' + st if st else '')]
+        return self.attach([pad + head + (' ' + st if st else '')], x.get('comment', ''), depth, can_trail=True)
 
     def open_brace(self, head: str, depth: int) -> List[str]:
         if self.f.pick('brace') == 'same':
@@ -303,7 +336,7 @@ class Printer:
         for b in body:
             lines += b
         lines.append('}')
-        return lines
+        return self.attach(lines, t.get('comment', ''), 0, can_trail=False)
 
     @staticmethod
     def _place(body: List[List[str]], blk: List[str], pos: str) -> None:
@@ -321,9 +354,9 @@ class Printer:
             ln = self.ind + self.ident(it['name'])
             if it['note']:
                 ln += ' ' + self.settings([self.note_setting(it['note'])], 1)
-            lines.append(ln)
+            lines += self.attach([ln], it.get('comment', ''), 1, can_trail=True)
         lines.append('}')
-        return lines
+        return self.attach(lines, e.get('comment', ''), 0, can_trail=False)
 
     def ref(self, r: Dict[str, Any]) -> List[str]:
         body = self.col_addr(r['left']) + self.sp() + r['type'] + self.sp() + self.col_addr(r['right'])
@@ -337,12 +370,12 @@ class Printer:
             head += ' ' + self.ident(r['name'])
         if self.f.pick('ref_form') == 'short':
             st = self.settings(items, 0)
-            return [head + ': ' + body + (' ' + st if st else '')]
+            return self.attach([head + ': ' + body + (' ' + st if st else '')], r.get('comment', ''), 0, can_trail=True)
         st = self.settings(items, 1)
         lines = self.open_brace(head, 0)
         lines.append(self.ind + body + (' ' + st if st else ''))
         lines.append('}')
-        return lines
+        return self.attach(lines, r.get('comment', ''), 0, can_trail=True, trail_line=-2)
 
     def group(self, g: Dict[str, Any]) -> List[str]:
         head = self.kw('TableGroup') + self.sp() + self.ident(g['name'])
@@ -362,7 +395,7 @@ class Printer:
         for b in body:
             lines += b
         lines.append('}')
-        return lines
+        return self.attach(lines, g.get('comment', ''), 0, can_trail=False)
 
     def sticky(self, n: Dict[str, Any]) -> List[str]:
         lines = self.open_brace(self.kw('Note') + self.sp() + self.ident(n['name']), 0)
@@ -378,23 +411,39 @@ class Printer:
         for b in body:
             lines += b
         lines.append('}')
-        return lines
+        return self.attach(lines, p.get('comment', ''), 0, can_trail=False)
 
     def element(self, d: Dict[str, Any]) -> List[str]:
         return {'table': self.table, 'enum': self.enum, 'ref': self.ref, 'group': self.group,
                 'sticky': self.sticky, 'project': self.project}[d['d']](d)
 
-    def document(self, doc: List[Dict[str, Any]]) -> str:
+    def lines(self, doc: List[Dict[str, Any]]) -> List[str]:
         out: List[str] = []
         for i, d in enumerate(doc):
             if i:
                 out += [''] * self.f.pick('blank')
             out += self.element(d)
+        return out
+
+    def document(self, doc: List[Dict[str, Any]], noise: Optional[List[Any]] = None) -> str:
+        out = self.lines(doc)
+        for kind, pos, text in sorted(noise or [], key=lambda n: -n[1]):
+            # extra comments (C14 inertness): on a line of their own before line `pos`, or trailing line `pos`
+            pos = pos % (len(out) + 1)
+            if kind == 'own':
+                if pos < len(out) and out[pos].startswith('\x02'):
+                    continue
+                out[pos:pos] = [ln for ln in text.split('\n')]
+            elif pos < len(out) and out[pos].strip() and not out[pos].endswith('\x01') \
+                    and not out[pos].lstrip('\x02').lstrip().startswith(('//', '/*')) and not out[pos].endswith('*/'):
+                out[pos] += ' ' + (text if '\n' not in text else text.split('\n')[0] + (' */' if text.startswith('/*') else '')) + '\x01'
+        out = [ln.replace('\x01', '').replace('\x02', '') for ln in out]
         text = self.eol.join(out)
         if self.f.pick('final_nl'):
             text += self.eol
         return text
 
 
-def print_doc(doc: List[Dict[str, Any]], seed: Optional[int] = None, pinned: Optional[Dict[str, Any]] = None) -> str:
-    return Printer(Form(seed, pinned)).document(doc)
+def print_doc(doc: List[Dict[str, Any]], seed: Optional[int] = None, pinned: Optional[Dict[str, Any]] = None,
+              noise: Optional[List[Any]] = None) -> str:
+    return Printer(Form(seed, pinned)).document(doc, noise)
